@@ -105,7 +105,13 @@ func traverseArrayOperator(d *dataTreeNavigator, context Context, expressionNode
 
 	// rhs is a collect expression that will yield indices to retrieve of the arrays
 
-	rhs, err := d.GetMatchingNodes(context.ReadOnlyClone(), expressionNode.RHS)
+	// the indices are computed once, from the first node of the context (see below): evaluating the
+	// bracket over every node would, in eval-all mode, collect one copy of each index per node
+	indexContext := context.ReadOnlyClone()
+	if context.MatchingNodes.Len() > 1 {
+		indexContext = context.SingleReadonlyChildContext(context.MatchingNodes.Front().Value.(*CandidateNode))
+	}
+	rhs, err := d.GetMatchingNodes(indexContext, expressionNode.RHS)
 
 	if err != nil {
 		return Context{}, err
